@@ -150,6 +150,7 @@ REF = {
     "check_nonzero": lambda a: RB(1 if _i(a) != 0 else 0),
     "check_positive": lambda a: RB(1 if _i(a) >= 0 else 0),
     "bits_roundtrip": r_bits_roundtrip,
+    "from_bits3": lambda a, b, c: _i(a) + 2 * _i(b) + 4 * _i(c),
     "if_then_else": r_ite, "if_else": r_ite,
     "tobool": lambda a: RB(_i(a)) if _i(a) in (0, 1) else (_ for _ in ()).throw(RefRaise()),
     "assert_lt": _assert(operator.lt), "assert_le": _assert(operator.le),
@@ -196,6 +197,7 @@ IMPL = {
     "check_zero": _method("check_zero"), "check_nonzero": _method("check_nonzero"),
     "check_positive": _method("check_positive"),
     "bits_roundtrip": _bits_roundtrip,
+    "from_bits3": lambda a, b, c: H.rt.LinComb.from_bits([a, b, c]),
     "if_then_else": _ite, "if_else": lambda c, a, b: c.if_else(a, b),
     "tobool": lambda a: H.boolean.LinCombBool(a),
     "assert_lt": _method("assert_lt"), "assert_le": _method("assert_le"),
@@ -245,11 +247,11 @@ ASSERT2 = ["assert_lt", "assert_le", "assert_eq", "assert_ne", "assert_gt", "ass
 ASSERT1 = ["assert_zero", "assert_nonzero", "assert_positive"]
 BINARY_BOOL = ["and", "or", "xor", "eq", "ne", "lt", "le", "gt", "ge", "add", "sub", "mul", "pow"]
 UNARY_BOOL = ["invert", "neg", "pos", "abs", "check_zero"]
-VALUE_OPS = set(BINARY_INT + UNARY_INT + ["if_then_else", "if_else"])
+VALUE_OPS = set(BINARY_INT + UNARY_INT + ["if_then_else", "if_else", "from_bits3"])
 
 
 def arity(name):
-    if name in ("if_then_else", "if_else", "assert_range"):
+    if name in ("if_then_else", "if_else", "assert_range", "from_bits3"):
         return 3
     if name in BINARY_INT or name in ASSERT2:
         return 2
@@ -270,7 +272,7 @@ def in_domain(name, args, n):
     if any(not (lo <= a <= hi) for a in ints):
         return False
     anyb = any(_isb(a) for a in args)
-    if name in ("add", "sub", "mul", "neg", "pos"):
+    if name in ("add", "sub", "mul", "neg", "pos", "from_bits3"):
         return True
     if name in ("lt", "le", "eq", "ne", "gt", "ge"):
         if anyb and any(a not in (0, 1) for a in ints):
